@@ -699,7 +699,9 @@ fn update_stages_blocks(
                 body, continuing, ..
             } => {
                 «proof {
-                    assert(sub_blocks(&st) =~= seq![*body, *continuing]);
+                    // the two sub-blocks are named through sub_blocks(&st), not through the pattern's variables: an arm that
+                    // forgets one of them then fails the obligation below instead of leaving a dangling name
+                    assert(sub_blocks(&st).len() == 2 && sub_blocks(&st)[0] == *body);
                     lemma_sub_inv(module, &b0, j, 0, v1, gs1, stage);
                 }
                 proof { lemma_unvisited_mono(module, v0, visited@); axiom_block_height(&b0, j, 0); }»
@@ -708,7 +710,7 @@ fn update_stages_blocks(
                 let ghost gs2 = global_stages@;
                 proof {
                     lemma_touched_sub(module, &b0, j, 0);
-                    lemma_sound_widen(gs1, gs2, stage, touched_block(module, *body), tb);
+                    lemma_sound_widen(gs1, gs2, stage, touched_block(module, sub_blocks(&st)[0]), tb);
                     lemma_block_inv_step(module, &b0, v1, v2, gs1, gs2, stage);
                     lemma_sub_inv(module, &b0, j, 1, v2, gs2, stage);
                 }
@@ -716,7 +718,7 @@ fn update_stages_blocks(
                 update_stages_blocks(module, continuing, global_stages, stage, visited);
                 «proof {
                     lemma_touched_sub(module, &b0, j, 1);
-                    lemma_sound_widen(gs2, global_stages@, stage, touched_block(module, *continuing), tb);
+                    lemma_sound_widen(gs2, global_stages@, stage, touched_block(module, sub_blocks(&st)[1]), tb);
                     lemma_sound_trans(gs1, gs2, global_stages@, stage, tb);
                     lemma_sub_post_mono(module, body, v2, visited@, gs2, global_stages@, stage);
                     lemma_mono_trans(gs1, gs2, global_stages@);
@@ -765,11 +767,9 @@ fn update_stages_blocks(
                             }
                         }
                     }»
-                } «else {
-                    assert(vis(v1, c));
-                    proof { lemma_sound_refl(gs1, stage, tb); }
                 }
-                proof {
+                «proof {
+                    if vis(v1, c) && visited@ == v1 && global_stages@ == gs1 { lemma_sound_refl(gs1, stage, tb); }
                     assert(callee_post(module, c, visited@, global_stages@, stage));
                     assert forall|c2: int| #[trigger] calls_at(&b0, j, c2) implies callee_post(module, c2, visited@, global_stages@, stage) by {
                         assert(c2 == c);
@@ -921,11 +921,11 @@ fn update_stages(
                         }
                         assert(vmono(v1, visited@));
                     }»
-                } «else {
-                    assert(vis(v1, c));
-                    proof { lemma_sound_refl(gs1, stage, tf); }
                 }
-                proof {
+                «proof {
+                    // the callee was visited before (no ghost `else` branch: if the guard disappears this still parses and the
+                    // obligations of the unguarded recursive call fail instead)
+                    if vis(v1, c) && visited@ == v1 && global_stages@ == gs1 { lemma_sound_refl(gs1, stage, tf); }
                     lemma_sound_trans(gs0, gs1, global_stages@, stage, tf);
                     assert(callee_post(module, c, visited@, global_stages@, stage));
                     lemma_mono_trans(gs0, gs1, global_stages@);
